@@ -78,6 +78,24 @@ def email_exact(prefix, m, n, **kw):
     return q
 
 
+GLUE_LEAF = ['src/is_822_local.c', 'src/is_5321_local.c', 'src/is_5322_local.c', 'src/is_ascii_domain.c',
+             'src/is_special_domain.c', 'src/is_tld.c', 'src/auto_tld.c', 'src/eav.c']
+
+
+def glue_query(m, n, literal=False, **kw):
+    ipunit = 'src/is_ipv4_ipv6.c' if literal else ('src/is_ipv4_ipv6.c', [], ['is_ipaddr', 'is_ipv4', 'is_ipv6'])
+    return Query('C01-glue-%s-%s-len%d' % ('literal' if literal else 'host', MODES[m][1], n), 'g_glue.c',
+                 repo=[EMAIL_SRC[m]] + GLUE_LEAF + [ipunit],
+                 defs=D(VF_N=n, VF_MODE=m) + (['-DVF_GLUE_LIT'] if literal else ['-DVF_GLUE_HOST']), unwind=n + 4,
+                 unwindset={'strspn.0': 24} if literal else None, object_bits=13, leak=True,
+                 covers=['end'] + (['accepted-literal'] if literal else (['accepted-hostname', 'rejected-with-at'] if n >= 4 else [])),
+                 bounds={'address_len': n, 'tld_check': 'off',
+                         'structure': 'x@[...] skeleton concrete, every other byte arbitrary' if literal else 'every byte arbitrary except that "[" does not occur'},
+                 functions=[EMAIL_FN[m], MODES[m][3], 'is_ascii_domain'] + (['is_ipaddr', 'is_ipv4', 'is_ipv6'] if literal else []),
+                 note='UNDECOMPOSED: the real email function with all its real callees against the property statement composed from the references',
+                 timeout=5000, weight=n * (20 if literal else 1), **kw)
+
+
 def c01_queries(tier):
     N = 24 if tier == 'quick' else 40
     qs = [email_query('C01', m, N, timeout=3000) for m in range(4)]
@@ -91,6 +109,14 @@ def c01_queries(tier):
             if n == 67:
                 q.covers = ['end', 'lpart-too-long']
             qs.append(q)
+    # glue: the undecomposed real functions against the composed references
+    for m in range(3):
+        if tier == 'quick':
+            qs += [glue_query(m, n) for n in list(range(3, 17)) + [24]]
+        else:
+            qs += [glue_query(m, n) for n in list(range(3, 33)) + ([40, 66, 67, 68] if m in (1, 2) else [])]
+    if tier != 'quick':
+        qs += [glue_query(1, 11, literal=True), glue_query(1, 12, literal=True)]
     return qs
 
 
